@@ -3,7 +3,7 @@ From Coq Require Import List ZArith NArith Bool Lia.
 Import ListNotations.
 Open Scope Z_scope.
 Require Import MW.Ledger.Model MW.Ledger.Spec MW.Ledger.Run MW.Ledger.WF MW.Ledger.Import.
-Require Import MW.Ledger.Proofs MW.Ledger.Proofs2 MW.Ledger.RemoveProofs.
+Require Import MW.Ledger.Proofs MW.Ledger.Proofs2 MW.Ledger.Proofs3 MW.Ledger.RemoveProofs.
 
 (* ---------------------------------------------------------------- unready until done *)
 
@@ -30,7 +30,9 @@ Proof.
   - inversion H. subst. rewrite Hs in Hr. discriminate.
   - destruct (import_blocks p (own_w st w) n k (Z.min (k + B) (fst (tip (x_w st)))) (credits (x_w st), x_brecs st) n)
       as [[cs brs]|e] eqn:Hb.
-    + inversion H. subst st' o. clear H. unfold status_of, with_status in Hr. cbn [x_status] in Hr.
+    + destruct (f_import_tipcheck fx && negb (node_on_synced n (x_w st) (Z.min (k + B) (fst (tip (x_w st)))))).
+      { inversion H. subst. rewrite Hs in Hr. discriminate. }
+      inversion H. subst st' o. clear H. unfold status_of, with_status in Hr. cbn [x_status] in Hr.
       rewrite lookupN_setN_same in Hr.
       destruct (Z.min (k + B) (fst (tip (x_w st))) =? fst (tip (x_w st))) eqn:E; [|discriminate].
       apply Z.eqb_eq in E. split; [reflexivity|lia].
@@ -47,7 +49,7 @@ Proof.
   destruct (status_of st w) as [[|k|]|]; try (inversion H; subst; repeat split; reflexivity).
   destruct (memN w (x_dead st)); [inversion H; subst; repeat split; reflexivity|].
   destruct (import_blocks _ _ _ _ _ _ _) as [[cs brs]|e].
-  - inversion H. subst. congruence.
+  - destruct (f_import_tipcheck fx && negb _); inversion H; subst; [repeat split; reflexivity|congruence].
   - destruct e; [| |destruct (f_import_retry fx)]; inversion H; subst; repeat split; reflexivity.
 Qed.
 
@@ -394,6 +396,34 @@ Proof.
   intros c cs Hwf. rewrite <- (tip_height_L {| p_cbmat := 0; p_bindlock := 0 |} (fun _ => None) c Hwf). reflexivity.
 Qed.
 
+(* the comparison asyncImport makes before committing (repaired code): the node's block at height h is the
+   handler's synced block of that height *)
+Lemma node_on_synced_iff : forall n ws h,
+  node_on_synced n ws h = true <-> exists nb, node_at n h = Some nb /\ matched ws nb = true.
+Proof.
+  intros n ws h. unfold node_on_synced, matched. split.
+  - destruct (node_at n h) as [nb|] eqn:Hat; [|discriminate]. intros H. exists nb. split; [reflexivity|].
+    unfold node_at in Hat. apply find_some in Hat. destruct Hat as [_ Hh]. apply Z.eqb_eq in Hh. rewrite Hh. exact H.
+  - intros [nb [Hat H]]. rewrite Hat. unfold node_at in Hat. apply find_some in Hat. destruct Hat as [_ Hh].
+    apply Z.eqb_eq in Hh. rewrite Hh in H. exact H.
+Qed.
+
+(* it holds when the node's chain IS the handler's chain *)
+Lemma node_on_synced_self : forall c ws h, wf_chain c -> synced ws = synced_of c -> 0 <= h <= chain_height c ->
+  node_on_synced c ws h = true.
+Proof.
+  intros c ws h Hwf Hsy Hh. destruct (wf_linked _ Hwf) as [pv Hl].
+  destruct (nth_error c (Z.to_nat h)) as [x|] eqn:Hn.
+  2:{ apply nth_error_None in Hn. unfold chain_height in Hh. lia. }
+  apply nth_error_split in Hn. destruct Hn as [a [r [Hc Hlen]]].
+  assert (Hx : b_height x = h). { rewrite Hc in Hl. rewrite (linked_height _ _ _ _ _ Hl). lia. }
+  apply node_on_synced_iff. exists x. split.
+  - unfold node_at. rewrite <- Hx. rewrite Hc at 1. rewrite Hc in Hl. apply (node_at_found _ _ _ _ _ Hl).
+  - assert (Hm : matched ws x = matched (L {| p_cbmat := 0; p_bindlock := 0 |} (fun _ => None) c) x).
+    { unfold matched, synced_at. rewrite Hsy. reflexivity. }
+    rewrite Hm. apply (in_matched _ _ c x pv 0 Hl). rewrite Hc. apply in_or_app. right. left. reflexivity.
+Qed.
+
 Lemma firstn_firstn_skipn : forall (c : list block) a b, (a <= b)%nat ->
   firstn a c ++ firstn (b - a) (skipn a c) = firstn b c.
 Proof.
@@ -452,6 +482,7 @@ Proof.
     rewrite import_blocks_app. rewrite Hcr. unfold upto. fold a. fold pre. rewrite Hmid.
     apply import_blocks_skip. intros x Hx. right. apply Hpost_h. assumption. }
   rewrite <- Hsplit in Hall. rewrite Hall.
+  rewrite (node_on_synced_self c (x_w st) stop Hwf Hsy) by lia. cbn [negb]. rewrite andb_false_r.
   eexists. split; [reflexivity|].
   cbn [with_status with_brecs with_w x_w credits synced].
   split; [unfold upto; fold b; rewrite Hpm; reflexivity|]. split; [assumption|].
